@@ -37,10 +37,12 @@ def run_make_knots(model, p, mult, a, b, n, transform=None):
     if not isinstance(kv, fpm.Concat) or len(kv.parts) != 3:
         raise fpm.Unsupported('make_knots no longer builds concatenate((repeat, repeat, repeat))')
     first, mid, last = kv.parts
-    ok = (isinstance(first, fpm.Repeat) and isinstance(last, fpm.Repeat) and isinstance(mid, fpm.Repeat) and first.x is a and last.x is b
+    ok = (isinstance(first, fpm.Repeat) and isinstance(last, fpm.Repeat) and isinstance(mid, fpm.Repeat)
           and first.times == p + 1 and last.times == p + 1 and mid.times == mult and isinstance(mid.x, fpm.SymSeq))
     if not ok:
         raise fpm.Unsupported('unexpected structure of the knot vector built by make_knots')
+    # the end knots: the objects a and b themselves, or computed values (then "exactly a / exactly b" is an obligation of its own)
+    mid.x.ends = (None if first.x is a else first.x, None if last.x is b else last.x)
     return mid.x
 
 
@@ -62,6 +64,9 @@ def make_knots_obligations(model, mid, a, b, n):
         'first breakpoint > a': z3.Implies(one.le(L), a.lt(mid.elem(zero))),
         'last breakpoint < b': z3.Implies(one.le(L), mid.elem(L - 1).lt(b)),
     }
+    e0, e1 = getattr(mid, 'ends', (None, None))
+    if e0 is not None: obl['first p+1 knots are exactly a'] = e0.eq(a)
+    if e1 is not None: obl['last p+1 knots are exactly b'] = e1.eq(b)
     return obl
 
 
@@ -125,7 +130,11 @@ def hunt_make_knots(run, thorough, budget_ms, transform=None):
         except fpm.Unsupported as e:
             run.inconclusive_msg('make_knots: %s' % e); return hits
         s = z3.Solver(); s.set('timeout', budget_ms)
-        s.add(z3.UGE(m.int_bv, 1), z3.ULE(m.int_bv, 2000), z3.Not(mid.length.eq(n - 1)))
+        bad_ = [z3.Not(mid.length.eq(n - 1))]
+        e0, e1 = getattr(mid, 'ends', (None, None))
+        if e0 is not None: bad_.append(z3.Not(e0.eq(a)))
+        if e1 is not None: bad_.append(z3.Not(e1.eq(b)))
+        s.add(z3.UGE(m.int_bv, 1), z3.ULE(m.int_bv, 2000), z3.Or(*bad_))
         r = str(s.check())
         run.queries[r] += 1
         run.groups.append({'group': 'make_knots exact-FP bug hunting', 'bound': {'a': av, 'b': bv, 'n': '1..2000 symbolic'}, 'answer': r,
